@@ -49,6 +49,8 @@ def gen(ctx):
             r = rng.random()
             if r < 0.62:
                 rec = lasio.rand_points(rng, h, rng.choice([0, 0, 1, 2, 7]))
+                if len(rec) == 1 and rng.random() < 0.4:
+                    rec = rec[0]   # 0-d one-point record (las.points[i])
                 kind = "same"
             elif r < 0.8:
                 # scale-aware record, same or different scaling (contents small enough to be representable)
